@@ -1,21 +1,31 @@
 """C27 - remote SFTP files behave like local Python binary files"""
-from contracts import sftp_pos
+from contracts import sftp_pos, sftp_handle
 
 ID = "C27"
 F = "paramiko.sftp_file.SFTPFile."
 B = "paramiko.file.BufferedFile."
 TARGETS = [F + "_write", B + "tell", F + "seek", B + "_write_all", F + "truncate"]
-REPLAY = {"*": "c27.replay_programs"}
+REPLAY = {"*": "c27.replay_programs", "SFTPHandle": "c27.server_handle_offsets"}
 
 
 def setup(E):
     sftp_pos.declare(E)
+    global TARGETS
+    # the server side of an open file, in its own contract environment
+    E3 = type(E)()
+    sftp_handle.declare(E3)
+    TARGETS = [t for t in TARGETS if not (isinstance(t, tuple) and t[1] == "server-handle")]
+    for fn in ("read", "write"):
+        qn = "paramiko.sftp_handle.SFTPHandle." + fn
+        TARGETS.append((qn, "server-handle", dict(E3.contracts[qn], **{
+            "+replace": True, "+contracts": {k: v for k, v in E3.contracts.items() if k != qn},
+            "+fields": {k: dict(d["fields"]) for k, d in E3.classdecl.items()},
+            "+engine": {"auto_opaque": True, "ghost_types": dict(E.ghost_types, **E3.ghost_types)}})))
     # BufferedFile.read / readline with their C42 contracts (loops and all) plus the clause a local file satisfies:
     # data written earlier and still buffered goes out before anything is read
     from contracts import bufferedfile
     E2 = type(E)()
     bufferedfile.declare(E2)
-    global TARGETS
     TARGETS = [t for t in TARGETS if not (isinstance(t, tuple) and t[1] == "writes-first")]
     for fn in ("read", "readline"):
         qn = B + fn
